@@ -784,6 +784,46 @@ impl HistGen {
         }
     }
 
+    /// a long rotation: the same policy re-keyed `n` times in a row with nothing pruned (chains of `n + 1` revisions: sizes
+    /// no short history reaches), a key that follows with `keep`, one that does not, encapsulations before, in the middle
+    /// and after, then who opens what and what the master key holds
+    pub fn deep_rotation(seed: u64, p: Profile, n: usize) -> Vec<String> {
+        let mut g = HistGen::new(seed, p);
+        g.p.malformed_pct = 0;
+        g.p.tracers_pct = 0;
+        g.prelude();
+        g.op_update();
+        let pol = g.pol();
+        let u0 = g.next_u;
+        g.next_u += 2;
+        g.emit(format!("keygen M0 U{u0} {pol}"));
+        g.emit(format!("keygen M0 U{} {pol}", u0 + 1));
+        let k0 = g.next_k - 1;
+        let e0 = g.next_e;
+        g.next_e += 1;
+        g.emit(format!("encaps K{k0} E{e0} {pol}"));
+        for i in 0..n {
+            let k = g.new_k();
+            g.emit(format!("rekey M0 K{k} {pol}"));
+            if i == n / 2 {
+                let e = g.next_e;
+                g.next_e += 1;
+                g.emit(format!("encaps K{k} E{e} {pol}"));
+            }
+        }
+        let k = g.next_k - 1;
+        let e = g.next_e;
+        g.next_e += 1;
+        g.emit(format!("encaps K{k} E{e} {pol}"));
+        let u = g.next_u;
+        g.next_u += 2;
+        g.emit(format!("refresh M0 U{u0} U{u} 1"));
+        g.emit(format!("refresh M0 U{} U{} 0", u0 + 1, u + 1));
+        g.emit("matrix".into());
+        g.emit("dump M0".into());
+        g.lines
+    }
+
     pub fn history(seed: u64, p: Profile) -> Vec<String> {
         let mut g = HistGen::new(seed, p);
         g.prelude();
